@@ -1328,14 +1328,13 @@ class Process(StateMachine, persistence.Savable, metaclass=ProcessStateMachineMe
             try:
                 next_state = await self._run_task(self._state.execute)
             except process_states.Interruption as exception:
-                # If the interruption was caused by a call to a Process method then there should
-                # be an interrupt action ready to be executed, so just check if the cookie matches
-                # that of the exception i.e. if it is the _same_ interruption.  If not cancel and
-                # build the interrupt action below
-                if self._interrupt_action is not None:
-                    if self._interrupt_action.cookie is not exception:
-                        self._set_interrupt_action_from_exception(exception)
-                else:
+                # If the interruption was caused by a call to a Process method then there is an interrupt
+                # action ready to be executed.  It need not be the one that delivered this interruption: a
+                # later request made during the same step replaced it and must not be overruled by the stale
+                # exception.  Only when there is no action (the step itself raised the interruption), or the
+                # action was withdrawn and this is a different interruption, build the action below
+                action = self._interrupt_action
+                if action is None or (action.cancelled() and action.cookie is not exception):
                     self._set_interrupt_action_from_exception(exception)
 
             except KeyboardInterrupt:
